@@ -480,7 +480,13 @@ pub fn generate(profile: &str, seed: u64, index: u64) -> NScenario {
             // calls after most installs
             if rng.chance(3, 4) {
                 let ct = if rng.chance(2, 3) { t } else { rng.below(targets.len() as u64) as usize };
-                let op = if rng.chance(1, 8) { "call_threads" } else { "call" };
+                let op = if rng.chance(1, 8) {
+                    "call_threads"
+                } else if rng.chance(1, 8) {
+                    "call_fork"
+                } else {
+                    "call"
+                };
                 ops.push(NOp { op: op.into(), target: ct, kind: String::new(), fake: 0, value: false, fault: String::new() });
             }
         }
@@ -490,6 +496,11 @@ pub fn generate(profile: &str, seed: u64, index: u64) -> NScenario {
         if !lifetimes.is_empty() && rng.chance(1, 3) {
             pre.push("reprotect_text".into());
             classes.push("env-reprotect-text".into());
+        }
+        if !lifetimes.is_empty() && rng.chance(1, 6) {
+            // a forked child of this process has an injector lifetime of its own
+            pre.push("fork_lifetime".into());
+            classes.push("env-fork-lifetime".into());
         }
         lifetimes.push(NLifetime { ops, exit_panic, pre, exit_mprotect_fail: None });
     }
@@ -641,7 +652,20 @@ impl<'a> Run<'a> {
         let live = !self.model[t].is_empty();
         self.sh.note(if after_drop.is_some() { PH_CALL_AFTER } else if live { PH_CALL_LIVE } else { PH_OTHER }, lt as u64, oi as u64, after_drop.map(|p| p as u64).unwrap_or(0));
         let mut got: Vec<u32> = vec![self.call_target(t)];
-        if threads > 0 {
+        if threads == usize::MAX {
+            // the same call in a forked child: it inherited the patched code and must inherit
+            // whatever the patch leads to
+            let tr = self.sc.targets[t].clone();
+            let addr = self.target_addr(t);
+            match in_fork(move || if tr.kind == "synth" { arena::call_u32(addr) as u64 } else { real_target_call(tr.idx) as u64 }) {
+                Ok(v) => got.push(v as u32),
+                Err(e) => {
+                    let props: Vec<&str> = if live { vec!["C01", "C13"] } else { vec!["C03"] };
+                    self.v("call-in-forked-child-died", &props, format!("lifetime {lt} op {oi}: a child forked while target #{t} at {:#x} {} died calling it ({})", self.target_addr(t), if live { "was faked" } else { "was not faked" }, if e > 0 { format!("signal {e}") } else { format!("status {}", -e) }));
+                }
+            }
+            self.probe("calls_in_a_forked_child");
+        } else if threads > 0 {
             let tr = self.sc.targets[t].clone();
             let addr = self.target_addr(t);
             // one thread at a time: how many thread stacks glibc keeps mapped must not depend on
@@ -1105,6 +1129,42 @@ pub fn execute(sc: &NScenario, sh: &Shared) -> Value {
             }
             *run.faults.entry("env_text_reprotected_between_lifetimes".into()).or_insert(0) += 1;
         }
+        if lt.pre.iter().any(|e| e == "fork_lifetime") {
+            // The child fakes the first synthetic target with the last synthetic function, calls
+            // it, lets the injector go and calls it again.  What it does stays in the child: the
+            // parent's code is untouched while it lives and afterwards.
+            if let Some(ti) = sc.targets.iter().position(|t| t.kind == "synth" && t.ret != "bool") {
+                let taddr = run.target_addr(ti);
+                let (faddr, fid) = *sc.funcs.last().unwrap();
+                let orig = run.target_orig(ti);
+                if faddr != taddr {
+                    let r = in_fork(move || unsafe {
+                        let mut inj = InjectorPP::new();
+                        inj.when_called(FuncPtr::new(taddr as *const (), "fn() -> u32")).will_execute_raw(FuncPtr::new(faddr as *const (), "fn() -> u32"));
+                        let v1 = arena::call_u32(taddr) as u64;
+                        drop(inj);
+                        let v2 = arena::call_u32(taddr) as u64;
+                        (v1 << 32) | v2
+                    });
+                    run.probe("injector_lifetime_in_a_forked_child");
+                    match r {
+                        Ok(v) => {
+                            let (v1, v2) = ((v >> 32) as u32, v as u32);
+                            if v1 != fid || v2 != orig {
+                                run.v("forked-child-lifetime-misbehaves", &["C01", "C02", "C03", "C10"], format!("lifetime {li}: in a forked child, target #{ti} at {taddr:#x} returned {v1:#x} while faked (the fake gives {fid:#x}) and {v2:#x} after its injector went (the original gives {orig:#x})"));
+                            }
+                        }
+                        Err(e) => run.v("forked-child-lifetime-died", &["C01", "C02", "C03", "C10"], format!("lifetime {li}: a forked child died during its own injector lifetime ({})", if e > 0 { format!("signal {e}") } else { format!("status {}", -e) })),
+                    }
+                    // nothing of that may show in this process
+                    run.observe(&format!("lifetime {li}: after a forked child's injector lifetime"), &[], true);
+                    let g = run.call_target(ti);
+                    if g != orig {
+                        run.v("unfaked-function-changed-behaviour", &["C03", "C10"], format!("lifetime {li}: after a forked child's injector lifetime, target #{ti} at {taddr:#x} returns {g:#x} in THIS process (original {orig:#x})"));
+                    }
+                }
+            }
+        }
         run.pending_expectation = false;
         let mut inj_holder: Option<InjectorPP> = None;
         let r = catch_unwind(AssertUnwindSafe(|| {
@@ -1120,6 +1180,7 @@ pub fn execute(sc: &NScenario, sh: &Shared) -> Value {
                 "install" => run.install(&mut inj, li, oi, op),
                 "call" => run.do_call(li, oi, op.target, 0, None),
                 "call_threads" => run.do_call(li, oi, op.target, 4, None),
+                "call_fork" => run.do_call(li, oi, op.target, usize::MAX, None),
                 _ => {}
             }
         }
